@@ -11,18 +11,24 @@ import (
 	"mime/multipart"
 	"net/http"
 	"net/textproto"
+	"net/url"
+	"reflect"
 	"strconv"
 	"sync"
 	"sync/atomic"
 	"time"
 
+	"github.com/containerd/containerd/v2/core/remotes/docker"
 	"github.com/containerd/containerd/v2/pkg/reference"
 	"github.com/containerd/stargz-snapshotter/cache"
 	"github.com/containerd/stargz-snapshotter/estargz/zstdchunked"
 	"github.com/containerd/stargz-snapshotter/fs/config"
 	"github.com/containerd/stargz-snapshotter/fs/remote"
+	"github.com/containerd/stargz-snapshotter/fs/source"
 	"github.com/containerd/stargz-snapshotter/metadata"
 	memorymetadata "github.com/containerd/stargz-snapshotter/metadata/memory"
+	"github.com/containerd/stargz-snapshotter/service/resolver"
+	digest "github.com/opencontainers/go-digest"
 	ocispec "github.com/opencontainers/image-spec/specs-go/v1"
 
 	"verifharness/internal/memreg"
@@ -37,7 +43,44 @@ type blobOp struct {
 	Conc int
 }
 
+// redirPlan: 3xx replies that the HTTP client of a registry host (built the production
+// way: service/resolver.RegistryHostsFromConfig, go-retryablehttp + http.Client) follows by
+// itself inside one RoundTrip.
+type redirPlan struct {
+	Kind     string // self-forever | pingpong | chain-same | chain-cross | cross-forever
+	N        int    // chain-*: number of redirects before the honest answer
+	Status   int    // 301 302 303 307 308
+	Relative bool   // Location without scheme and host
+	When     string // "always" | "armed" (only after Resolve has returned)
+}
+
+var redirDirected = []redirPlan{
+	{Kind: "self-forever", Status: 302, When: "always"},
+	{Kind: "self-forever", Status: 307, When: "armed"},
+	{Kind: "self-forever", Status: 301, Relative: true, When: "always"},
+	{Kind: "pingpong", Status: 302, When: "always"},
+	{Kind: "pingpong", Status: 308, When: "armed"},
+	{Kind: "chain-same", N: 3, Status: 302, When: "always"},
+	{Kind: "chain-same", N: 9, Status: 303, When: "always"},
+	{Kind: "chain-same", N: 10, Status: 302, When: "always"},
+	{Kind: "chain-same", N: 11, Status: 307, When: "always"},
+	{Kind: "chain-same", N: 500, Status: 302, Relative: true, When: "always"},
+	{Kind: "chain-same", N: 40, Status: 302, When: "armed"},
+	{Kind: "chain-cross", N: 4, Status: 302, When: "always"},
+	{Kind: "chain-cross", N: 11, Status: 302, When: "always"},
+	{Kind: "chain-cross", N: 300, Status: 307, When: "armed"},
+	{Kind: "cross-forever", Status: 302, When: "always"},
+	{Kind: "cross-forever", Status: 308, When: "armed"},
+}
+
 type hostilePlan struct {
+	// Prod: the registry hosts are built by service/resolver.RegistryHostsFromConfig (the
+	// daemon's way: retrying client that follows redirects) with only the innermost
+	// transport replaced by the scripted registry. ProdTimeout = request_timeout_sec of the
+	// mirror entry (-1 none, 0 default 30 s, >0 seconds).
+	Prod          bool
+	ProdTimeout   int
+	Redir         *redirPlan
 	BaseK         int
 	Seed          uint64
 	ChunkSize     int64
@@ -103,9 +146,32 @@ func genD(r *vf.Run, pool *basePool, idx, k int) *input {
 		}
 		p.Ops = []blobOp{{Kind: "cache", Off: 0, Len: 1 << 60, Conc: 1}, {Kind: "readat", Off: 1 << 40, Len: 100, Conc: 1}, {Kind: "cache", Off: 1 << 39, Len: 1 << 38, Conc: 1}}
 	}
+	nk := len(hostileKinds)*2 + 6
+	switch {
+	case k >= nk && k < nk+2*len(redirDirected):
+		rp := redirDirected[(k-nk)%len(redirDirected)]
+		p.Redir, p.Prod, p.Focus, p.HostileOf10 = &rp, true, "", 0
+		p.ProdTimeout = -1
+		if k >= nk+len(redirDirected) {
+			p.ProdTimeout = []int{0, 4}[k%2] // the default (30 s) or a configured timeout
+		}
+	case k >= nk+2*len(redirDirected) && rng.Chance(1, 6):
+		rp := redirPlan{Kind: rng.PickS("self-forever", "pingpong", "chain-same", "chain-same", "chain-cross", "cross-forever"),
+			N: rng.Pick(1, 5, 9, 10, 11, 12, 30, 1000), Status: rng.Pick(301, 302, 302, 303, 307, 308), Relative: rng.Chance(1, 4), When: rng.PickS("always", "armed")}
+		p.Redir, p.Prod = &rp, true
+		p.ProdTimeout = rng.Pick(-1, -1, -1, 0, 3)
+		p.HostileOf10 = rng.Pick(0, 0, 2) // mostly pure redirect games, sometimes mixed with other hostile replies
+	case k >= nk+2*len(redirDirected) && rng.Chance(1, 5):
+		p.Prod = true // the ordinary hostile replies through the production client (retries, redirect following)
+		p.ProdTimeout = rng.Pick(-1, 3)
+	}
 	p.Ops = append(p.Ops, blobOp{Kind: "close"}, blobOp{Kind: "readat", Off: 0, Len: 10, Conc: 1})
+	if p.Redir != nil {
+		return &input{Idx: idx, Gen: "d", Framing: b.Framing, Host: p,
+			Desc: fmt.Sprintf("base%d(%s) size=%d production-client request_timeout_sec=%d redirects=%+v chunk=%d hostile=%d/10 ops=%v", b.K, b.Framing, size, p.ProdTimeout, *p.Redir, p.ChunkSize, p.HostileOf10, p.Ops)}
+	}
 	return &input{Idx: idx, Gen: "d", Framing: b.Framing, Host: p,
-		Desc: fmt.Sprintf("base%d(%s) size=%d chunk=%d prefetchChunk=%d hostile=%d/10 focus=%q single=%v ops=%v", b.K, b.Framing, size, p.ChunkSize, p.PrefetchChunk, p.HostileOf10, p.Focus, p.SingleRange, p.Ops)}
+		Desc: fmt.Sprintf("base%d(%s) size=%d chunk=%d prefetchChunk=%d hostile=%d/10 focus=%q single=%v prod=%v/%d ops=%v", b.K, b.Framing, size, p.ChunkSize, p.PrefetchChunk, p.HostileOf10, p.Focus, p.SingleRange, p.Prod, p.ProdTimeout, p.Ops)}
 }
 
 type readerAtFunc func([]byte, int64) (int, error)
@@ -446,15 +512,19 @@ func (c *caseRun) runHostile() {
 	reg := memreg.New()
 	host, repo := "reg.test", fmt.Sprintf("c04/d%d", c.in.Idx)
 	dgst := reg.AddBlob(host, repo, data)
+	for _, h := range []string{host, mirrorHost} {
+		reg.AddBlob(h, repo, data)
+		reg.AddBlob(h, repo+"-b", data) // second path of the same host (redirect ping-pong)
+	}
 	reg.AllowToken("good", true)
 	var delivered atomic.Int64
 	var kinds sync.Map
+	var armed atomic.Bool
 	script := hostileScript(p, data, func() string { return reg.CDNURL(host, repo, dgst, "good") }, &delivered, &kinds)
-	// the GET fallback of a refused HEAD is answered with a garbage Content-Range when asked for
-	reg.SetScript(func(q *memreg.Request) memreg.Behaviour {
-		bh := script(q)
-		return bh
-	})
+	if p.Redir != nil {
+		script = redirScript(p, reg, repo, script, &armed, &delivered, &kinds)
+	}
+	reg.SetScript(script)
 	ref, err := reference.Parse(host + "/" + repo + ":v1")
 	if err != nil {
 		panic("harness: " + err.Error())
@@ -462,6 +532,10 @@ func (c *caseRun) runHostile() {
 	desc := ocispec.Descriptor{MediaType: ocispec.MediaTypeImageLayerGzip, Digest: dgst, Size: int64(len(data))}
 	cfg := config.BlobConfig{ChunkSize: p.ChunkSize, PrefetchChunkSize: p.PrefetchChunk, CheckAlways: true, ForceSingleRangeMode: p.SingleRange, FetchTimeoutSec: 30, MaxRetries: 1, MinWaitMSec: 1, MaxWaitMSec: 2}
 	hosts := reg.Hosts(nil)
+	if p.Prod {
+		hosts = prodHosts(reg, host, p.ProdTimeout)
+		c.r.Count("d:production_client_cases", 1)
+	}
 	var bl remote.Blob
 	c.stage("remote.Resolve", func() {
 		// Resolve itself talks to the hostile registry (redirect probe + HEAD): retry a few
@@ -475,6 +549,7 @@ func (c *caseRun) runHostile() {
 			bl = x
 		}
 	})
+	armed.Store(true)
 	if bl == nil {
 		c.finishHostile(&delivered, &kinds, reg)
 		return
@@ -572,3 +647,123 @@ func (c *caseRun) finishHostile(delivered *atomic.Int64, kinds *sync.Map, reg *m
 
 var _ = time.Second
 var _ vf.Violation
+
+const mirrorHost = "mirror.test"
+
+// prodHosts builds the registry hosts exactly as the daemon does
+// (service/resolver.RegistryHostsFromConfig: per host a go-retryablehttp client around an
+// http.Client that follows redirects, a docker authorizer) and replaces only the innermost
+// transport of each client by the scripted in-memory registry. The mirror entry carries the
+// request_timeout_sec under test (a negative value, "no timeout", can only be configured
+// for mirror entries); the registry host itself follows with the default timeout.
+func prodHosts(reg *memreg.Registry, host string, timeoutSec int) source.RegistryHosts {
+	cfg := resolver.Config{Host: map[string]resolver.HostConfig{
+		host: {Mirrors: []resolver.MirrorConfig{{Host: mirrorHost, RequestTimeoutSec: timeoutSec}}},
+	}}
+	inner := resolver.RegistryHostsFromConfig(cfg)
+	return func(ref reference.Spec) ([]docker.RegistryHost, error) {
+		hs, err := inner(ref)
+		if err != nil {
+			return nil, err
+		}
+		for i := range hs {
+			if !setInnermostTransport(hs[i].Client, reg) {
+				return nil, fmt.Errorf("harness: host client of %q is not the retryable client", hs[i].Host)
+			}
+		}
+		return hs, nil
+	}
+}
+
+// setInnermostTransport reaches c.Transport.(*retryablehttp.RoundTripper).Client.HTTPClient
+// by reflection (no direct dependency of the harness on go-retryablehttp).
+func setInnermostTransport(c *http.Client, tr http.RoundTripper) bool {
+	if c == nil || c.Transport == nil {
+		return false
+	}
+	v := reflect.ValueOf(c.Transport)
+	if v.Kind() != reflect.Ptr || v.Elem().Kind() != reflect.Struct {
+		return false
+	}
+	cl := v.Elem().FieldByName("Client")
+	if !cl.IsValid() || cl.Kind() != reflect.Ptr || cl.IsNil() {
+		return false
+	}
+	hc := cl.Elem().FieldByName("HTTPClient")
+	if !hc.IsValid() || !hc.CanInterface() {
+		return false
+	}
+	inner, ok := hc.Interface().(*http.Client)
+	if !ok || inner == nil {
+		return false
+	}
+	inner.Transport = tr
+	return true
+}
+
+// redirScript answers blob (and CDN) requests with redirects according to the plan and
+// hands everything else to the next script.
+func redirScript(p *hostilePlan, reg *memreg.Registry, repo string, next func(q *memreg.Request) memreg.Behaviour, armed *atomic.Bool, delivered *atomic.Int64, kinds *sync.Map) func(q *memreg.Request) memreg.Behaviour {
+	rp := p.Redir
+	var nreq atomic.Int64
+	return func(q *memreg.Request) memreg.Behaviour {
+		if n := nreq.Add(1); n%2048 == 0 {
+			reg.ResetLog() // a followed redirect loop makes millions of requests: keep the harness' own log small
+		}
+		if (q.Kind != "blob" && q.Kind != "cdn") || (rp.When == "armed" && !armed.Load()) {
+			return next(q)
+		}
+		vals, _ := url.ParseQuery(q.Query)
+		hop, _ := strconv.Atoi(vals.Get("hop"))
+		vals.Set("hop", strconv.Itoa(hop+1))
+		regURL := func(host, rpo string) string {
+			return "https://" + host + "/v2/" + rpo + "/blobs/" + q.Digest + "?" + vals.Encode()
+		}
+		self := "https://" + q.Host + q.Path + "?" + vals.Encode()
+		if rp.Relative {
+			self = "?" + vals.Encode()
+		}
+		otherRepo := repo + "-b"
+		if q.Repo == otherRepo {
+			otherRepo = repo
+		}
+		regHost := q.Host
+		if q.Kind == "cdn" {
+			regHost = "reg.test"
+		}
+		var loc string
+		switch rp.Kind {
+		case "self-forever":
+			loc = self
+		case "pingpong":
+			loc = regURL(regHost, otherRepo)
+			if rp.Relative {
+				loc = "/v2/" + otherRepo + "/blobs/" + q.Digest + "?" + vals.Encode()
+			}
+		case "chain-same":
+			if hop >= rp.N {
+				return next(q)
+			}
+			loc = self
+		case "chain-cross", "cross-forever":
+			if rp.Kind == "chain-cross" && hop >= rp.N {
+				return next(q)
+			}
+			if q.Kind == "cdn" {
+				loc = regURL(regHost, repo)
+			} else {
+				loc = reg.CDNURL(regHost, repo, digest.Digest(q.Digest), "good") + "?" + vals.Encode()
+			}
+		default:
+			return next(q)
+		}
+		delivered.Add(1)
+		kinds.Store("redirect-"+rp.Kind, true)
+		st := rp.Status
+		return memreg.Behaviour{Label: "redirect-" + rp.Kind, RedirectTo: loc, MutateResp: func(res *http.Response) {
+			if st != 0 {
+				res.StatusCode, res.Status = st, fmt.Sprintf("%d %s", st, http.StatusText(st))
+			}
+		}}
+	}
+}
